@@ -176,10 +176,11 @@ def do_truncate(v, c, t, cut):
     return ok
 
 
-define(globals(), 'C02', 'truncation_every_offset', ['v', 'c', 't'], "return do_truncate(v, c, t, 0)",
-       ['-32768 <= v <= 32767 and 0 <= c <= 255 and 0 <= t'], timeout=2400, path_timeout=300, drives=SRV_DRIVES,
+for _lo, _hi in ((0, 30), (30, 60), (60, 90), (90, 125), (125, 161)):
+  define(globals(), 'C02', 'truncation_offsets_%03d_%03d' % (_lo, _hi), ['v', 'c', 't'], "return do_truncate(v, c, %d + t, 0)" % _lo,
+       ['-32768 <= v <= 32767 and 0 <= c <= 255 and 0 <= t < %d' % (_hi - _lo)], timeout=2400, path_timeout=300, drives=SRV_DRIVES,
        stubs=['network.recv -> scripted chunks then EOF', 'conn -> recorder', 'misc.timer -> counter', 'random -> counter', 'main.apidict (per-connection stats) -> dotdict'],
-       symbolic=['t: EVERY truncation offset 0..len of the request stream', 'v: the written value', 'c: a sender context byte'],
+       symbolic=['t: EVERY truncation offset in [%d, %d) of the 160-byte request stream (the 5 shards cover 0..160)' % (_lo, _hi), 'v: the written value', 'c: a sender context byte'],
        bounds='request stream [Register, Write Tag A[1]=v, Read Tag A[0-3]] (160 bytes) through the real enip_srv_tcp receive loop, connection '
               'ending after every byte offset: replies == complete frames, the request processor is never invoked on a partial frame, tag changed '
               'iff the write frame is complete, handler raises iff a frame is partial, socket closed, stats entry removed',
